@@ -50,7 +50,33 @@ fn image(m: &MultiPolygon<f64>) -> Vec<u64> {
 
 const OPS: [Operation; 4] = [Operation::Intersection, Operation::Union, Operation::Difference, Operation::Xor];
 
+fn to32(m: &MultiPolygon<f64>) -> MultiPolygon<f32> {
+    let ring = |r: &LineString<f64>| LineString(r.0.iter().map(|c| Coord { x: c.x as f32, y: c.y as f32 }).collect::<Vec<_>>());
+    MultiPolygon(m.0.iter().map(|p| Polygon::new(ring(p.exterior()), p.interiors().iter().map(ring).collect())).collect())
+}
+
 fn one_call(a: &MultiPolygon<f64>, b: &MultiPolygon<f64>, op: Operation, pairing: u64) -> Vec<u64> {
+    if pairing >= 4 {
+        // single precision instantiation (operands are small integers, exactly representable)
+        let (a, b) = (to32(a), to32(b));
+        let r = match pairing % 4 {
+            1 => a.0[0].boolean(&b.0[0], op),
+            2 => a.0[0].boolean(&b, op),
+            3 => a.boolean(&b.0[0], op),
+            _ => a.boolean(&b, op),
+        };
+        let mut v = vec![r.0.len() as u64];
+        for p in &r.0 {
+            for rg in std::iter::once(p.exterior()).chain(p.interiors().iter()) {
+                v.push(rg.0.len() as u64);
+                for c in &rg.0 {
+                    v.push(c.x.to_bits() as u64);
+                    v.push(c.y.to_bits() as u64);
+                }
+            }
+        }
+        return v;
+    }
     let r = match pairing % 4 {
         1 => a.0[0].boolean(&b.0[0], op),
         2 => a.0[0].boolean(b, op),
@@ -69,7 +95,7 @@ fn c12(seed: u64) -> i32 {
     let mut scripts: Vec<Vec<(usize, usize, usize, u64)>> = Vec::new();
     for _ in 0..nthreads {
         let n = 1 + r.below(2) as usize;
-        scripts.push((0..n).map(|_| (r.below(pool.len() as u64) as usize, r.below(pool.len() as u64) as usize, r.below(4) as usize, r.below(4))).collect());
+        scripts.push((0..n).map(|_| (r.below(pool.len() as u64) as usize, r.below(pool.len() as u64) as usize, r.below(4) as usize, r.below(5) + if r.chance(1, 4) { 3 } else { 0 })).collect());
     }
     // reference: every distinct call once, in isolation — in half of the scenarios before any thread starts, in the
     // other half only after all threads have finished, so that the threads make the process's very first calls
